@@ -30,15 +30,16 @@ PROPS = {
                  ["progress ('eventually terminal') depends on HiGHS returning an optimal solution and on the fair drain; monitored at rest "
                   "after a fault-free drain of every generated run, not proved"]),
     "C03": entry("C03", ["c03_not_ready_with_deps", "c03_restart", "depClosed_iff"],
-                 [core(["msg", "t", "q", "cb"], ["c03."]), job(["ev", "resp", "tasks"], ["c03."]),
+                 [core(["msg", "t", "q", "cb"], ["c03."]), job(["ev", "resp", "tasks"], ["c03.", "c10.emit"]),
                   # restart clause: journals persisted by the REAL server in simulated runs (kind sim) and generated ones,
                   # restored at every record boundary by the real StateRestorer; monitor c03.restart
                   {"component": "journal", "driver": "hqm-journal", "tags": ["res", "sub", "adj", "prod"], "clauses": ["c03.restart"],
                    "quick": {"cases": 8, "shards": 12, "extra": ["--kind", "sim"]},
                    "thorough": {"cases": 60, "shards": 16, "extra": ["--kind", "sim"]}}],
-                 ["c03_restart assumes the recorded state is closed under failure propagation at the cut (DepClosed): the server writes "
-                  "TasksAborted for all dependents before the TaskFailed that caused them and one TasksCanceled per cancel; validated on "
-                  "every run on journals the real server persists in simulated cluster runs, restored at every record boundary"]),
+                 ["c03_restart assumes the recorded state is closed under failure propagation at the cut (DepClosed): PROVED for every prefix of "
+                  "the journal the job-layer model M4 writes (HqModel.C10.c10_emitted_dep_closed / c10_emitted_restore, under Emit.EmitOk "
+                  "which hqm-job evaluates on every real operation) and additionally validated on every run on journals the real server "
+                  "persists in simulated cluster runs, restored at every record boundary (monitor c03.restart)"]),
     "C05": entry("C05", ["c05_reserve_exact", "c05_release_restores", "c05_inv_partial", "c05_resinv_reachable", "c05_free_le_total",
                          "c05_f29_witness", "c05_reject_witness", "c05_worker_task_wf"],
                  [core(["msg", "w", "rd", "t", "q"], ["c05.", "core.hyp"])],
